@@ -296,7 +296,8 @@ func parseRun(args []string) error {
 	for i := 0; i < *n; i++ {
 		// ---- CycloneDX component forests with missing / duplicate refs, nesting, optional metadata component
 		ver := pick(r, []string{"cdx13", "cdx14", "cdx15"})
-		bom := map[string]any{"bomFormat": "CycloneDX", "specVersion": "1." + ver[4:], "version": 1, "serialNumber": "urn:uuid:3e671687-395b-41f5-a30f-a58921a69b79"}
+		bom := map[string]any{"bomFormat": "CycloneDX", "specVersion": "1." + ver[4:], "version": 1,
+			"serialNumber": pick(r, []string{"urn:uuid:3e671687-395b-41f5-a30f-a58921a69b79", "urn:uuid:3e671687-395b-41f5-a30f-a58921a69b79", "specVersion", "bomFormat", "spdxVersion"})}
 		total := 0
 		if r.Intn(4) > 0 {
 			mc, c := cdxInput(r, 1+r.Intn(3))
@@ -353,7 +354,9 @@ func parseRun(args []string) error {
 
 		// ---- SPDX documents: elements, relationships to present / missing / special targets
 		ids := []string{"a", "b", "c"}[:1+r.Intn(3)]
-		doc := map[string]any{"spdxVersion": "SPDX-2.3", "dataLicense": "CC0-1.0", "SPDXID": "SPDXRef-DOCUMENT", "name": "n",
+		doc := map[string]any{"spdxVersion": "SPDX-2.3", "dataLicense": "CC0-1.0", "SPDXID": "SPDXRef-DOCUMENT",
+			// a top-level VALUE that is spelled like a declaration member
+			"name":              pick(r, []string{"n", "n", "spdxVersion", "specVersion", "bomFormat", "SPDXID"}),
 			"documentNamespace": "https://example.com/ns", "creationInfo": map[string]any{"created": "2024-01-01T00:00:00Z", "creators": []any{"Tool: t"}}}
 		pk, fl, rel := []any{}, []any{}, []any{}
 		for _, id := range ids {
@@ -585,6 +588,15 @@ func sniffRun(args []string) error {
 			for _, ind := range []int{0, 4, 8} {
 				if data, k, _ := writeDoc(big, trFormats[f], ind); k == "ok" {
 					emit(fmt.Sprintf("writer-large:%s:indent%d:%dB", f, ind, len(data)), want[f], data)
+					if ind == 0 {
+						// the same value with its members in another order: the declaration then comes after megabytes of packages / components
+						ls := layouts(data)
+						for _, name := range []string{"reversed", "indented-sorted"} {
+							if b, ok := ls[name]; ok {
+								emit(fmt.Sprintf("writer-large:%s:%s:%dB", f, name, len(b)), want[f], b)
+							}
+						}
+					}
 				}
 			}
 		}
